@@ -1,4 +1,5 @@
 import Pycoin.Proofs.ChainHist
+import Pycoin.Proofs.ChainSpec
 import Pycoin.Model.ChainFinderOld
 import Pycoin.Spec.Chain
 /-!
@@ -8,8 +9,8 @@ calls on a fresh `BlockChain(anchor)`; every call carries its own `set.pop()` ra
 order is a parameter, so each statement holds for every order CPython may choose.
 
 All statements about the BlockChain are conditional on the model run returning (an `.error` is a Python
-exception, reported by the harness oracle) and on `HypRun`: after every call the finder is *sound* (every tree
-is the upward path from its bottom, every bottom filed under a top has a tree ending there) and after
+exception, reported by the harness oracle) and on `HypRun`: after every `add_headers` the finder is *sound* (every tree
+is the upward path from its bottom, every bottom filed under a top has a tree ending there) and after every
 `lock_to_index` the rebuilt finder still holds the unlocked remainder of the reported chain.  That is the part
 of `C15_chainfinder_inv` the BlockChain proofs consume; it is checked by evaluation on every generated history
 (model = implementation, and the reference oracle), not yet proved for every pop order — hence `_partial`.
@@ -169,6 +170,38 @@ theorem C15_blockchain_over_spec_partial (anchor0 : Nat) (rev : Bool) (rank : Li
       simp only at hle
       rw [hcache, e]; simp [chainWeight] at hle ⊢
       omega
+
+/-- **C15_spec_chain_is_model_chain**: the bridge to `Spec/Chain.lean`.  Whenever the dicts record the delivered
+headers `D` and the anchor has no entry, a chain of the specification (index order) is, tip first, a chain from the
+anchor in the finder's parent relation, and its total weight is what `weight_lookup` sums to. -/
+theorem C15_spec_chain_is_model_chain (D : List Hdr) (pl w : Dict Nat)
+    (hpl : ∀ hd ∈ D, dget pl hd.hash = some hd.parent ∧ dget w hd.hash = some hd.weight)
+    (a : Nat) (c : List Hdr) (hc : IsChainFrom D a c) (ha : dget pl a = none) :
+    UpPath pl ((c.map (·.hash)).reverse ++ [a]) ∧ totalWeight c = chainWeight w (c.map (·.hash)).reverse := by
+  obtain ⟨l, e⟩ := spec_chain_links D pl w hpl a c hc
+  refine ⟨UpPath.of_links _ (by simp) l ?_, e⟩
+  intro x hx
+  simp at hx; subst hx; exact ha
+
+/-- **C15_heaviest_over_spec** (partial, as `C15_blockchain_over_spec_partial`, now against `Spec.Chain`): after an
+`add_headers` call whose finder is sound and complete, no chain of delivered headers descending from the anchor
+(in the sense of the specification) is heavier than the reported unlocked chain. -/
+theorem C15_heaviest_over_spec_partial (anchor0 : Nat) (rev : Bool) (rank : List Nat) (bc bc' : BC) (c : List Nat)
+    (batch : List Header) (ops : List Op)
+    (h0 : ∀ hd ∈ batch, hd.hash ≠ anchor0) (g : Good anchor0 bc c)
+    (hr : bc.addHeaders rev rank batch = .ok (ops, bc'))
+    (hs : FinderSound bc'.finder) (hc : FinderComplete rev bc'.finder bc'.parentHash)
+    (D : List Hdr)
+    (hD : ∀ hd ∈ D, dget bc'.finder.parent hd.hash = some hd.parent ∧ dget bc'.weight hd.hash = some hd.weight) :
+    ∃ c', bc'.cache = some c' ∧
+      ∀ sc : List Hdr, IsChainFrom D bc'.parentHash sc → totalWeight sc ≤ chainWeight bc'.weight c' := by
+  obtain ⟨c', g', hcache, _, hmax⟩ := C15_blockchain_over_spec_partial anchor0 rev rank bc bc' c batch ops h0 g hr hs hc
+  refine ⟨c', hcache, ?_⟩
+  intro sc hsc
+  have hanchor : dget bc'.finder.parent bc'.parentHash = none :=
+    UpPath.last_unregistered _ g'.path bc'.parentHash (by simp)
+  obtain ⟨u, e⟩ := C15_spec_chain_is_model_chain D _ _ hD _ sc hsc hanchor
+  rw [e]; exact hmax _ u
 
 /-! ## the finder invariant -/
 
